@@ -412,7 +412,7 @@ fn aggregate_output_text_from_events(events: &[Event]) -> String {
 
 #[cfg(kani)]
 #[path = "/verif/harness/ripd/context_compiler.rs"]
-mod verif_kani;
+pub mod verif_kani;
 
 #[cfg(test)]
 mod tests {
